@@ -24,6 +24,78 @@ EXPLANATION = (
 TECHNIQUE = 'abstract interpretation of client and server on a modelled connection with injected faults'
 
 
+def check_foreign_exception_formatting(repo, res):
+    """The exception a request raises is an object of the analysed / evaluated code: turning it - or anything reached from it (its
+    members, its arguments) - into text runs foreign __str__ / __repr__ / __format__ methods, which may raise.  Inside the handler
+    that builds the error reply every such conversion must sit in a try of its own, otherwise the failure leaves process() and
+    ends the serving loop.  (Reading __class__.__name__ runs no foreign code.)"""
+    import ast
+    from ..core import unparse, AnalysisError
+    srv = repo.klass(SERVER, 'Server')
+    proc = next((f for f in srv.body if isinstance(f, ast.FunctionDef) and f.name == 'process'), None)
+    if proc is None:
+        raise AnalysisError('Server.process vanished')
+    n = 0
+    for h in [x for x in ast.walk(proc) if isinstance(x, ast.ExceptHandler) and x.name]:
+        tainted = {h.name}
+        changed = True
+        while changed:
+            changed = False
+            for st in ast.walk(h):
+                tgt = None
+                if isinstance(st, ast.Assign) and len(st.targets) == 1 and isinstance(st.targets[0], ast.Name):
+                    tgt, val = st.targets[0].id, st.value
+                elif isinstance(st, (ast.For, ast.comprehension)) and isinstance(st.target, ast.Name):
+                    tgt, val = st.target.id, st.iter
+                if tgt and tgt not in tainted and any(isinstance(x, ast.Name) and x.id in tainted for x in ast.walk(val)) \
+                        and not _only_class_name(val, tainted):
+                    tainted.add(tgt)
+                    changed = True
+
+        def foreign(e):
+            """e hands a tainted object itself (not its class name) to a conversion"""
+            if isinstance(e, ast.Name):
+                return e.id in tainted
+            if isinstance(e, ast.Tuple):
+                return any(foreign(x) for x in e.elts)
+            if isinstance(e, ast.Attribute):
+                return not unparse(e).endswith('.__class__.__name__') and foreign(e.value) and False
+            return False
+        sinks = []
+        for c in ast.walk(h):
+            if isinstance(c, ast.Call) and unparse(c.func) in ('str', 'repr', 'format', 'ascii') and c.args and foreign(c.args[0]):
+                sinks.append(c)
+            elif isinstance(c, ast.Call) and isinstance(c.func, ast.Attribute) and c.func.attr == 'format' \
+                    and any(foreign(a) for a in c.args + [k.value for k in c.keywords]):
+                sinks.append(c)
+            elif isinstance(c, ast.BinOp) and isinstance(c.op, ast.Mod) and isinstance(c.left, (ast.Constant, ast.JoinedStr)) and foreign(c.right):
+                sinks.append(c)
+            elif isinstance(c, ast.FormattedValue) and foreign(c.value):
+                sinks.append(c)
+        for c in sinks:
+            n += 1
+            guarded = False
+            p, child = getattr(c, '_parent', None), c
+            while p is not None and p is not h:
+                if isinstance(p, ast.Try) and child in p.body and any(
+                        x.type is None or unparse(x.type) in ('Exception', 'BaseException') for x in p.handlers):
+                    guarded = True
+                    break
+                child, p = p, getattr(p, '_parent', None)
+            res.check('C15-R2', 'process: `%s` is guarded' % unparse(c)[:50], guarded, SERVER, c.lineno,
+                      'the error reply is built by converting an object of the failing request (%s) to text outside a try of its own: a '
+                      '__str__ / __repr__ of evaluated code that raises leaves Server.process and ends the serving loop' % unparse(c)[:80],
+                      sample='conversion of the request\'s exception to text sits in try/except Exception')
+    res.count('foreign_conversions_in_process', n, floor=1)
+
+
+def _only_class_name(val, tainted):
+    import ast
+    from ..core import unparse
+    names = [x for x in ast.walk(val) if isinstance(x, ast.Name) and x.id in tainted]
+    return bool(names) and all(unparse(getattr(getattr(x, '_parent', None), '_parent', None) or x).endswith('.__class__.__name__') for x in names)
+
+
 def run(repo, res):
     env = repo.klass(REMOTE, 'Environment')
     srv = repo.klass(SERVER, 'Server')
@@ -37,6 +109,7 @@ def run(repo, res):
     n = api_model.apply(res, server, {'reply': 'C15-R3', 'fallback': 'C15-R3', 'send': 'C15-R3'}, SERVER, srv.lineno)
     res.count('server_scenarios', n, floor=5)
     api_model.apply(res, [r for r in client if 'error reply' not in r[1]], {'call': 'C15-R4'}, REMOTE, env.lineno)
+    check_foreign_exception_formatting(repo, res)
     # the server writes a traceback to stderr for every failing request (logger.exception): a pipe nobody drains
     # blocks it for ever once the kernel buffer is full, and every later request is lost
     import ast
